@@ -1,8 +1,12 @@
 package checks
 
 import (
+	"bufio"
 	"encoding/json"
 	"fmt"
+	"os"
+	"path/filepath"
+	"sort"
 	"strings"
 
 	"github.com/microcosm-cc/bluemonday"
@@ -20,12 +24,13 @@ func init() {
 	register(&run.Check{
 		ID:    "C17",
 		Level: "model_checking",
-		Rule: "explicit-state search over builder histories: every sequence of <=3 (thorough 4) calls over a 66-call alphabet (every call that uses an upper-case spelling has its lower-case twin) (element / attribute / style rules in lower- and upper-case spellings and every scope; every boolean option with true and false; skip/keep content on two names in two spellings; scheme registrations incl. custom checks and patterns; two sandbox sets; rewriter) is executed on a fresh real policy. " +
+		Rule: "explicit-state search over builder histories: every sequence of <=3 (thorough 4) calls over a 66-call alphabet (every call that uses an upper-case spelling has its lower-case twin) (element / attribute / style rules in lower- and upper-case spellings and every scope; every boolean option with true and false; skip/keep content on two names in two spellings; scheme registrations incl. custom checks and patterns; two sandbox sets; rewriter) is executed on a fresh real policy; so is every history of <=2 calls that contains one of 17 helper / rarely used calls (AllowStandardURLs, AllowImages, AllowTables, AllowIFrames, builder-level AllowNoAttrs, AllowUnsafe, ...). " +
 			"Abstract state (reference model) = canonical rule set of the harness's spec view (names lower-cased, duplicates and order removed, last value of each switch, documented couplings). Additivity: after one more AllowElements / AllowElementsMatching / AllowAttrs / AllowNoAttrs call every tag and attribute kept before is still kept (histories <=3). Conformance: every history reaching an abstract state must reproduce, byte for byte, the probe-output vector (46 probe documents) of the first history that reached it. " +
 			"Independence: (first, in a pristine process) for every base and every call of the alphabet, a fresh policy built after another instance was extended, and the instance built before, reproduce the original vector; then for every pair of histories (A of length <=2, B of length <=1; B of length 2 next to A of length <=1 on the plain base) over a 13-call sub-alphabet and every interleaving of the two, built on two policy objects from each of NewPolicy / UGCPolicy / StrictPolicy, policy A's vector equals A built alone, before and after B is extended. " +
 			"states = abstract states reached, transitions = histories executed (each is one path from the initial state), traces validated = histories replayed against the implementation (all of them); non-trivial = histories that reached an already-visited abstract state through a different call sequence.",
 		Assumptions: []string{"the reference model is internal/spec (ViewOf + Canon); probe documents are listed in internal/checks/c17.go"},
 		QuickBudget: 50, ThoroughBudget: 800,
+		Post:   c17Post,
 		Run:    runC17,
 		Replay: replayC17,
 	})
@@ -184,11 +189,6 @@ func runC17(c *run.Ctx) {
 			}
 		}
 	}
-	type ref struct {
-		vec  []string
-		hist []C
-	}
-	refs := map[string]*ref{}
 	// additive calls never take anything away: every tag and attribute kept under a history is still
 	// kept after one more AllowElements / AllowElementsMatching / AllowAttrs / AllowNoAttrs call
 	// (checked for histories of length <=2 plus the additive call)
@@ -223,16 +223,26 @@ func runC17(c *run.Ctx) {
 		c.Outcome("additive-call-keeps-everything")
 	}
 	hist := make([]C, 0, depth)
+	// Every history is executed by exactly one shard (round-robin on its index). The shard records
+	// (hash of the abstract state, hash of the probe-output vector, the history); the parent groups the
+	// records of all shards by abstract state and requires one output vector per state (c17Post).
+	recf, ferr := os.Create(filepath.Join(c.WorkDir(), fmt.Sprintf("c17-rec-%d.tsv", c.Shard)))
+	if ferr != nil {
+		c.Cap("cannot write history records: " + ferr.Error())
+		return
+	}
+	recw := bufio.NewWriterSize(recf, 1<<20)
+	defer func() { recw.Flush(); recf.Close() }()
+	hidx := 0
 	var rec func()
 	rec = func() {
 		if c.Expired() {
 			return
 		}
-		s := spec.Spec{Name: "h", Base: "new", Calls: hist}
-		key := spec.ViewOf(s).Canon()
-		h := run.Hash128([]byte(key))
-		// all histories of one abstract state are handled by the same shard
-		if int(h[0]%uint64(c.NShards)) == c.Shard {
+		hidx++
+		if hidx%c.NShards == c.Shard {
+			s := spec.Spec{Name: "h", Base: "new", Calls: hist}
+			key := spec.ViewOf(s).Canon()
 			if len(hist) > 0 {
 				mono(hist)
 			}
@@ -244,20 +254,13 @@ func runC17(c *run.Ctx) {
 			c.Traces++
 			if pm != "" {
 				c.Violate("panic", "panic while sanitising probes after history "+histStr(hist)+": "+pm, c17Case{Mode: "equivalence", A: append([]C{}, hist...)})
-			} else if r, ok := refs[key]; !ok {
-				refs[key] = &ref{vec, append([]C{}, hist...)}
-				c.States++
 			} else {
-				c.NontrivialN++
-				if i := firstDiff(r.vec, vec); i >= 0 {
-					c.Violate("equivalence|"+lastOp(hist), fmt.Sprintf("two rule-equivalent histories behave differently on probe %s: %s gives %s, %s gives %s",
-						run.Q(c17Probes[i]), histStr(r.hist), run.Q(r.vec[i]), histStr(hist), run.Q(vec[i])), c17Case{Mode: "equivalence", A: append([]C{}, r.hist...), B: append([]C{}, hist...)})
-					c.Outcome("violation|equivalence")
-				} else {
-					c.Outcome("same-state-same-behaviour")
-					if c.WantSample() && len(hist) >= 2 {
-						c.Sample(map[string]string{"history": histStr(hist), "first_history_of_same_state": histStr(r.hist)})
-					}
+				kh := run.Hash128([]byte(key))
+				vh := run.Hash128([]byte(strings.Join(vec, "\x00")))
+				hj, _ := json.Marshal(hist)
+				fmt.Fprintf(recw, "%016x%016x\t%016x%016x\t%d\t%s\n", kh[0], kh[1], vh[0], vh[1], hidx, hj)
+				if c.WantSample() && len(hist) >= 2 {
+					c.Sample(map[string]string{"history": histStr(hist), "abstract_state_hash": fmt.Sprintf("%016x", kh[0])})
 				}
 			}
 		}
@@ -271,6 +274,64 @@ func runC17(c *run.Ctx) {
 		}
 	}
 	rec()
+
+	// helper and rarely used builder calls: every history of length <=2 over (alphabet + helpers) that contains a helper
+	helpers := []C{
+		{Op: "AllowStandardURLs"}, {Op: "AllowStandardAttributes"}, {Op: "AllowStyling"}, {Op: "AllowImages"}, {Op: "AllowDataURIImages"}, {Op: "AllowLists"}, {Op: "AllowTables"},
+		{Op: "AllowIFrames", Ints: []int{2}}, {Op: "AllowIFrames"},
+		{Op: "AllowAttrs", Names: []string{"id"}, Re: `^[a-z]+$`, NoAttrs: true, Scope: "on", On: []string{"A", "span"}},
+		{Op: "AllowAttrs", Names: []string{"ID", "id", "Title"}, NoAttrs: true, Scope: "matching", OnRe: reMy},
+		{Op: "AllowStyles", Names: []string{"color", "COLOR", "width"}, Handler: "is-red", Scope: "on", On: []string{"P"}},
+		{Op: "AllowStyles", Names: []string{"text-align", "foo-bar"}, Scope: "matching", OnRe: reMy},
+		{Op: "RequireSandboxOnIFrame"}, opt("AllowUnsafe", true), opt("AllowUnsafe", false), els("script", "STYLE"),
+	}
+	full := append(append([]C{}, al...), helpers...)
+	isHelper := func(i int) bool { return i >= len(al) }
+	for i := range full {
+		for j := -1; j < len(full); j++ {
+			if c.Expired() {
+				break
+			}
+			if !isHelper(i) && (j < 0 || !isHelper(j)) {
+				continue
+			}
+			hist = hist[:0]
+			hist = append(hist, full[i])
+			if j >= 0 {
+				hist = append(hist, full[j])
+			}
+			saved := depth
+			depth = len(hist) // evaluate this history only, do not extend it
+			rec()
+			depth = saved
+		}
+	}
+	hist = hist[:0]
+
+	// non-initial states: from a policy in which links, images and iframes already survive (so that the
+	// link / sandbox / crossorigin options have something to act on), every history of length <=2 over the
+	// alphabet and every history of length <=3 over the boolean options alone
+	linksOn := []C{attrsOn([]string{"href", "src", "rel", "target", "sandbox", "crossorigin"}, "", "a", "img", "iframe"),
+		{Op: "AllowURLSchemes", Names: []string{"http", "mailto"}}, opt("AllowRelativeURLs", true)}
+	var optsOnly []C
+	for _, call := range al {
+		switch call.Op {
+		case "RequireNoFollowOnLinks", "RequireNoFollowOnFullyQualifiedLinks", "RequireNoReferrerOnLinks", "RequireNoReferrerOnFullyQualifiedLinks",
+			"AddTargetBlankToFullyQualifiedLinks", "RequireCrossOriginAnonymous", "RequireParseableURLs", "AllowRelativeURLs", "AddSpaceWhenStrippingTag", "RequireSandboxOnIFrame":
+			optsOnly = append(optsOnly, call)
+		}
+	}
+	savedAl, savedDepth := al, depth
+	for _, lay := range []struct {
+		al []C
+		k  int
+	}{{savedAl, 2}, {optsOnly, 3}} {
+		al, depth = lay.al, len(linksOn)+lay.k
+		hist = append(hist[:0], linksOn...)
+		rec()
+	}
+	al, depth = savedAl, savedDepth
+	hist = hist[:0]
 
 	// ---- independence of instances -------------------------------------------------
 	sub := []C{
@@ -485,4 +546,67 @@ func replayC17(raw json.RawMessage) (bool, string) {
 		return firstDiff(va, v2) >= 0, "policy A differs after B was extended"
 	}
 	return false, "unknown mode"
+}
+
+// c17Post groups the history records of all shards by abstract state: all histories of one state must
+// have produced the same probe-output vector.
+func c17Post(workDir string, shards int) run.PostResult {
+	type recd struct {
+		vec  string
+		idx  int
+		hist string
+	}
+	groups := map[string][]recd{}
+	pr := run.PostResult{Outcomes: map[string]int64{}}
+	for i := 0; i < shards; i++ {
+		f, err := os.Open(filepath.Join(workDir, fmt.Sprintf("c17-rec-%d.tsv", i)))
+		if err != nil {
+			pr.Incomplete = "history records of a shard are missing"
+			continue
+		}
+		sc := bufio.NewScanner(f)
+		sc.Buffer(make([]byte, 1<<20), 1<<20)
+		for sc.Scan() {
+			parts := strings.SplitN(sc.Text(), "\t", 4)
+			if len(parts) != 4 {
+				continue
+			}
+			var idx int
+			fmt.Sscan(parts[2], &idx)
+			groups[parts[0]] = append(groups[parts[0]], recd{parts[1], idx, parts[3]})
+		}
+		f.Close()
+		os.Remove(filepath.Join(workDir, fmt.Sprintf("c17-rec-%d.tsv", i)))
+	}
+	pr.States = int64(len(groups))
+	keys := make([]string, 0, len(groups))
+	for k := range groups {
+		keys = append(keys, k)
+	}
+	sort.Strings(keys)
+	for _, k := range keys {
+		g := groups[k]
+		sort.Slice(g, func(a, b int) bool { return g[a].idx < g[b].idx })
+		pr.Nontrivial += int64(len(g) - 1)
+		reported := 0
+		for _, r := range g[1:] {
+			if r.vec == g[0].vec {
+				pr.Outcomes["same-state-same-behaviour"]++
+				continue
+			}
+			pr.Outcomes["violation|equivalence"]++
+			if reported >= 2 {
+				continue
+			}
+			reported++
+			var a, b []C
+			json.Unmarshal([]byte(g[0].hist), &a)
+			json.Unmarshal([]byte(r.hist), &b)
+			cs, _ := json.Marshal(c17Case{Mode: "equivalence", A: a, B: b})
+			_, what := replayC17(cs)
+			pr.Violations = append(pr.Violations, run.Violation{Property: "C17", Signature: "equivalence|" + lastOp(b),
+				What: fmt.Sprintf("two rule-equivalent histories behave differently: %s and %s: %s", histStr(a), histStr(b), what), Case: cs})
+		}
+	}
+	return pr
 }
